@@ -89,6 +89,8 @@ def judge(ctx, c, o):
     if o.get("panic"):
         ctx.report({"kind": "panic"}, "panic while forcing %s: %s" % (wstr(c["word"]), o["panic"]), c)
         return 1
+    # the datagram path is judged only where the registry is in the state the model predicts
+    agree = all((o["probe"].get(n) == "pong") == e for n, e in c["served"].items())
     for name, exp in sorted(c["served"].items()):
         got = o["probe"].get(name, "absent")
         if exp and got != "pong":
@@ -103,7 +105,7 @@ def judge(ctx, c, o):
             ctx.report({"kind": "revoked_still_served", "window": w, "by": by, "conn": name},
                        "disconnect (by %s) of connection %s was requested while it was %s, yet it still answers pings after: %s"
                        % (by, name, w.replace("_", " "), wstr(c["word"])), c)
-        elif exp and name in o["fwd"] and not o["fwd"][name]:
+        elif exp and agree and name in c.get("fwd_targets", []) and name in o["fwd"] and not o["fwd"][name]:
             n += 1
             ctx.report({"kind": "datagram_not_forwarded", "conn": name},
                        "served connection %s did not receive the bystander's datagram after: %s" % (name, wstr(c["word"])), c)
@@ -160,6 +162,8 @@ def run(ctx):
         res = ctx.tlc("relay", "MC_RelayRevoke", cfg="RelayRevoke_gen.cfg", mode="gen", constants=g, timeout=1800)
         for r in res.replays:
             r["keyof"] = {c: KEYOF[c] for c in r["served"]}
+            # datagrams addressed to an endpoint reach its active (newest registered) connection only
+            r["fwd_targets"] = sorted(c for c in r["active"].values() if c != "none" and c != "b" and r["served"][c])
             cases.append(r)
     if not cases:
         raise ToolError("TLC generated no schedules")
